@@ -12,12 +12,12 @@ def asset_amount(lst, denom):
     return 0
 
 
-def claim_step(ck, prog, nepochs, nassets, cursor, claimed_shape='full'):
+def claim_step(ck, prog, nepochs, nassets, cursor, claimed_shape='full', expired=0):
     def body(it):
-        st = setup_dist(it, nepochs, nassets, cursor=cursor, claimed_shape=claimed_shape)
+        st = setup_dist(it, nepochs, nassets, cursor=cursor, claimed_shape=claimed_shape, expired=expired)
         it.extra = dict(st=st)
         return enter(it, 'fee_distributor', 'execute', mk_env(it, it.ctx.sym('now', 64)), mk_info('alice', []), it.mkv(FX, 'Claim'))
-    tag = 'claim.e%d.a%d.%s.%s' % (nepochs, nassets, cursor, claimed_shape)
+    tag = 'claim.e%d.a%d.%s.%s%s' % (nepochs, nassets, cursor, claimed_shape, '.expired%d' % expired if expired else '')
     paths = ck.explore(prog, body, tag)
     nok = 0
     for p in paths:
@@ -39,6 +39,10 @@ def claim_step(ck, prog, nepochs, nassets, cursor, claimed_shape='full'):
                 pv = post[k][1]
                 av2 = asset_amount(amounts(pv, 3), ASSETS[j]); cl2 = asset_amount(amounts(pv, 4), ASSETS[j]); tot2 = asset_amount(amounts(pv, 2), ASSETS[j])
                 dec = dec + (e['av'][j] - av2)
+                if k < expired:
+                    ck.oblige('C09.claim.expired_untouched.%s.e%d.a%d' % (tag, k, j), p, z3.Or(av2 != 0, cl2 != e['cl'][j], tot2 != e['tot'][j]),
+                              'an epoch whose remainder was already rolled over is never paid from again')
+                    continue
                 region2 = nassets > 1 and j > 0     # the second asset of a two-asset epoch: known defect carve-out below
                 if region2:
                     ck.oblige('C09.claim.ledger.second_asset.%s.e%d' % (tag, k), p, z3.And(e['av'][j] != av2, cl2 + av2 != e['tot'][j]),
@@ -83,10 +87,10 @@ def claim_twice(ck, prog, nepochs):
     ck.require(n >= 1, 'claim twice: no path reached the second claim')
 
 
-def reply_step(ck, prog, nepochs, nassets=1):
+def reply_step(ck, prog, nepochs, nassets=1, expired=0):
     def body(it):
         c = it.ctx
-        st = setup_dist(it, nepochs, nassets, cursor='some')
+        st = setup_dist(it, nepochs, nassets, cursor='some', expired=expired)
         T = c.sym('forwarded', 128); c.assume(T < 2**120)
         newid = c.sym('new_id', 64); c.assume(newid > st['base'] + nepochs)
         ne = it.mk(FD + 'Epoch', id=U64(newid), start_time=TS(c.sym('new_start', 64)), total=VecV([nasset(it, ASSETS[0], T)]), available=VecV([nasset(it, ASSETS[0], T)]),
@@ -97,7 +101,7 @@ def reply_step(ck, prog, nepochs, nassets=1):
         rep = Agg('cosmwasm_std::Reply', [1, Enum('cosmwasm_std::SubMsgResult', 'Ok', [Agg('cosmwasm_std::SubMsgResponse', [VecV([]), SOME(data)])])])
         it.extra = dict(st=st, T=T, newid=newid)
         return enter(it, 'fee_distributor', 'reply', mk_env(it, c.sym('now', 64)), None, rep)
-    tag = 'reply.e%d.a%d' % (nepochs, nassets)
+    tag = 'reply.e%d.a%d%s' % (nepochs, nassets, '.expired%d' % expired if expired else '')
     n = 0
     for p in ck.explore(prog, body, tag):
         ck.sample(dict(entry='fee_distributor.reply(new epoch)', epochs=nepochs, outcome=p.short()))
@@ -133,11 +137,13 @@ def main():
     nok += claim_step(ck, prog, 2, 1, 'none_bonded')
     claim_step(ck, prog, 2, 1, 'none_never')
     nok2 = claim_step(ck, prog, 2, 2, 'some', 'first_only')
+    claim_step(ck, prog, 3, 1, 'some', expired=1)
     if ck.tier == 'thorough':
         claim_step(ck, prog, 4, 1, 'some'); claim_step(ck, prog, 2, 2, 'some', 'full'); claim_step(ck, prog, 2, 2, 'some', 'empty')
     ck.require(nok >= 2 and nok2 >= 1, 'claim: missing Ok paths')
     claim_twice(ck, prog, 2)
     reply_step(ck, prog, 3); reply_step(ck, prog, 2, 2)
+    reply_step(ck, prog, 3, 1, expired=1)      # an already-expired epoch is back in the window (grace period was increased)
     ck.bounds.update(epochs='2..3 stored epochs (thorough 4) with consecutive ids from a symbolic base, 1..2 assets each', grace='grace period symbolic in [1,30] (the window arithmetic forks on it)',
                      widths='totals/available full range below 2^120, shares any Decimal <= 1', cursor='cursor symbolic / absent with or without bonding history')
     ck.outside += ['more than 4 epochs in the window (same loop, more unrolling)', 'how the bonding contract computes shares (arbitrary share <= 1 per epoch)']
